@@ -237,7 +237,7 @@ class CFG:
         raise NotImplementedError
 
 
-def must_pass_through(cfg, start, is_target, is_marker, start_after=True, track=None, nonempty=None):
+def must_pass_through(cfg, start, is_target, is_marker, start_after=True, track=None, nonempty=None, edge_filter=None):
     """True iff every CFG path from element `start` (block,pos) to any element satisfying
     is_target(node) (or to the exit block when is_target is None) contains an element satisfying
     is_marker(node) strictly before the target. Returns (ok, witness_target_node).
@@ -246,7 +246,9 @@ def must_pass_through(cfg, start, is_target, is_marker, start_after=True, track=
     only the matching case successor is taken. This removes the infeasible paths of emulated returns
     (`retAddr = k; goto call; ... switch (retAddr) { case k: goto ret_k; }`).
     nonempty: optional predicate on a range-for node; such a loop is assumed to execute at least once
-    (on first arrival at its condition only the body edge is taken)."""
+    (on first arrival at its condition only the body edge is taken).
+    edge_filter: optional callback (condition node) -> True / False / None: for a two-way branch on that
+    condition follow only the true (resp. false) edge; None = both."""
     sb, sp = start
     seen = set()
     work = [(sb, sp + 1 if start_after else sp, None, frozenset())]
@@ -293,6 +295,14 @@ def must_pass_through(cfg, start, is_target, is_marker, start_after=True, track=
                     else:
                         default.append(s_)
                 succs = chosen or default
+        if edge_filter is not None and len(blk['succ']) == 2 and blk.get('cond', -1) >= 0:
+            cn = cfg.nodes.get(blk['cond'])
+            if cn is not None:
+                pick = edge_filter(cn)
+                if pick is True and blk['succ'][0] is not None:
+                    succs = [blk['succ'][0]]
+                elif pick is False and blk['succ'][1] is not None:
+                    succs = [blk['succ'][1]]
         if nonempty is not None and blk.get('termk') == 'CXXForRangeStmt' and len(blk['succ']) == 2 and b not in entered:
             t = cfg.nodes.get(blk.get('term'))
             if t is not None and nonempty(t) and blk['succ'][0] is not None:
